@@ -15,6 +15,7 @@
 #include <frg/variant.hpp>
 #include <frg/small_vector.hpp>
 #include <frg/utility.hpp>
+#include <frg/formatting.hpp>
 
 // ---- tuple (C17)
 using T1 = frg::tuple<int, wit::Elem>;
@@ -80,3 +81,8 @@ static_assert(alignof(frg::optional<wit::Over64>) >= 64 && alignof(frg::manual_b
 // locator or comparator must see its own updates
 namespace wit { struct SmallState { int n; int operator()(int) { return n++; } }; struct ComposeTag { }; }
 static_assert(std::is_same_v<decltype(frg::get<wit::ComposeTag>(std::declval<frg::composition<wit::ComposeTag, wit::SmallState> *>())), wit::SmallState &> && std::is_same_v<decltype(frg::composition<wit::ComposeTag, wit::SmallState>::get(nullptr)), wit::SmallState &>, "compose: get<Tag>(composition*) is a reference to the stored functor, also for a small trivially copyable one");
+
+// ---- fmt() (C19): the object fmt() returns may outlive the full expression that made it (returned from a helper, kept in
+// a variable): rvalue arguments are held BY VALUE, only lvalue arguments are referred to
+static_assert(std::is_same_v<decltype(frg::fmt(std::declval<frg::string_view>(), 1, std::declval<wit::Elem>())), frg::detail_::fmt_impl<int, wit::Elem>>, "format: fmt() stores rvalue arguments by value (an object returned by fmt() does not refer to temporaries)");
+static_assert(std::is_same_v<decltype(frg::fmt(std::declval<frg::string_view>(), std::declval<int &>())), frg::detail_::fmt_impl<int &>>, "format: fmt() refers to lvalue arguments");
